@@ -269,6 +269,16 @@ def run(case):
                 return out
             if not out.check(len(parts) == len(dv), "split:number_of_parts", f"step {step}: {len(parts)} vs {len(dv)}"):
                 return out
+            # the pieces are matched to the values by their content: in which order they are returned is not part of the statement
+            by_val = {}
+            for p in parts:
+                pv = {norm(v_) for v_ in p.df[f].tolist()} if len(p.df) else set()
+                if not out.check(len(pv) == 1, "split:part_mixes_values_or_is_empty", f"step {step}: {sorted(map(str, pv))[:4]}"):
+                    return out
+                by_val.setdefault(next(iter(pv)), []).append(p)
+            if not out.check(set(by_val) == set(dv) and all(len(v_) == 1 for v_ in by_val.values()), "split:parts_do_not_cover_the_values_once", f"step {step}"):
+                return out
+            parts = [by_val[v][0] for v in dv]
             for v, p in zip(dv, parts):
                 exp = [r_ for r_ in rows if norm(r_[IX[f]]) == v]
                 if not same_rows(out, p.df, exp, "split", step):
